@@ -150,16 +150,16 @@ func (r *Report) Finish(verifDir, evidencePath string) int {
 		rules[o.Rule]++
 	}
 	cov := map[string]interface{}{
-		"obligations":  len(r.Obls),
-		"discharged":   disch,
-		"checker_cmd":  fmt.Sprintf("/verif/bin/smgocheck %s --tier %s", r.ID, r.Tier),
-		"trusted_base": r.Trusted,
-		"explanation":  r.Explanation,
-		"samples":      samples,
-		"counters":     r.Counters,
-		"floors":       r.Floors,
-		"rules":        rules,
-		"notes":        r.Notes,
+		"obligations":             len(r.Obls),
+		"discharged":              disch,
+		"checker_cmd":             fmt.Sprintf("/verif/bin/smgocheck %s --tier %s", r.ID, r.Tier),
+		"trusted_base":            r.Trusted,
+		"explanation":             r.Explanation,
+		"samples":                 samples,
+		"counters":                r.Counters,
+		"floors":                  r.Floors,
+		"rules":                   rules,
+		"notes":                   r.Notes,
 		"known_findings_reported": len(knownHit),
 	}
 	if r.Trusted == nil {
